@@ -25,11 +25,13 @@ LEVEL = "exploration"
 RUNS = {"quick": 100000, "thorough": 1500000}
 WALL = {"quick": 240, "thorough": 1500}
 PARTITIONS = [{"name": "default", "env": {}}]
-FAULT_KINDS = build.LAYOUT_FAULTS + ["normalised_through_a_collection", "block_input:C", "block_input:F", "keep_missed_off", "reorder", "batch_split", "empty_batch", "nan_entry", "merge_partials", "rescale", "invalidate",
+FAULT_KINDS = build.LAYOUT_FAULTS + ["normalised_through_a_collection", "block_input:C", "block_input:F", "keep_missed_off", "reorder", "batch_split", "empty_batch", "nan_entry", "merge_partials", "adaptive_growth_before_sum", "rescale", "invalidate",
                "copy", "duplicate_values"]
 RULE = ("one run = 1-4 one-dimensional accumulators over consecutive bins fed in-range values (<= 30 entries, "
         "weights none/int/dyadic/float) by construction, fill and fill_n in seeded chunkings, combined with +, += and "
-        "sum(), copied, rescaled by positive factors, and finally subjected to statistics-invalidating operations; "
+        "sum(), copied, rescaled by positive factors, and finally subjected to statistics-invalidating operations; in "
+        "3 of 10 runs also 2-3 partial histograms over adaptive fixed-width axes that grow on their own before and "
+        "after they are summed; "
         "distinct = distinct sequence of (op kind, container, outcome); non-trivial = >= 2 delivery events in "
         "different batching or a merge/rescale happened")
 COMPONENTS = {
@@ -159,6 +161,25 @@ def generate(rng, seed, part):
         for _ in range(rng.randint(0, 2)):
             ops.append({"op": "taint", "a": rng.randrange(nodes), "b": nodes - 1,
                         "how": rng.choice(["add", "radd", "iadd", "sum", "fill", "fill_n", "copy", "scale"])})
+    if rng.random() < 0.3:
+        # partial histograms over *adaptive* fixed-width axes: each grows on its own (in either direction, more
+        # than once) before / after they are summed; every value lies within the bins of the histogram it entered
+        width = rng.choice([1.0, 0.5, 2.0, 2.5])
+        wk = rng.choice(["none", "none", "float", "int"])
+
+        def val():
+            return rng.choice([rng.randint(-40, 40) * 0.25, rng.randint(-8, 8) * 1.0, rng.uniform(-12, 12)])
+
+        def ent():
+            return [val(), None if wk == "none" else (rng.choice([0.5, 2.0, 1.0, 0.25]) if wk == "float"
+                                                      else float(rng.choice([1, 2, 3])))]
+        parts = [{"init": [val() for _ in range(rng.randint(1, 3))],
+                  "fills": [ent() for _ in range(rng.randint(0, 4))], "batch": rng.random() < 0.4}
+                 for _ in range(rng.randint(2, 3))]
+        ops.append({"op": "adaptive_partials", "width": width, "parts": parts,
+                    "reduce": rng.choice(["add", "add", "iadd", "sum", "radd"]),
+                    "order": rng.sample(range(len(parts)), len(parts)),
+                    "then": [ent() for _ in range(rng.randint(0, 3))]})
     return {"property": PROPERTY, "scenario": "moments", "config": cfg, "entries": entries, "ops": ops}
 
 
@@ -361,6 +382,71 @@ def execute(plan, ctx):
             nd.bag += [(pair(i)[0], pair(i)[1] / nd.factor) for i in idx]
             deliveries += 1
             check(ctx, nd, "fill_n")
+        elif o == "adaptive_partials":
+            parts = []
+            for pi, part in enumerate(op["parts"]):
+                ok, h = attempt(f_h1, list(part["init"]), "fixed_width", bin_width=op["width"], adaptive=True)
+                if not ok:
+                    ctx.probe("setup_failed:" + type(h).__name__)
+                    return
+                nd = Node(h, [(v, 1.0) for v in part["init"]])
+                nbins = h.bin_count
+                fills = part["fills"]
+                if part.get("batch") and fills:
+                    kw = {} if fills[0][1] is None else {"weights": np.asarray([w for _, w in fills], dtype=float)}
+                    ok, res = attempt(h.fill_n, [v for v, _ in fills], **kw)
+                    if not ok:
+                        ctx.probe("fill_failed:" + type(res).__name__)
+                        return
+                else:
+                    for v, w in fills:
+                        ok, res = attempt(h.fill, v) if w is None else attempt(h.fill, v, w)
+                        if not ok:
+                            ctx.probe("fill_failed:" + type(res).__name__)
+                            return
+                nd.bag += [(v, 1.0 if w is None else float(w)) for v, w in fills]
+                if h.bin_count != nbins:
+                    ctx.fault("adaptive_growth_before_sum")
+                ctx.ev(f"part{pi}", "adaptive-part", len(nd.bag), "ok")
+                check(ctx, nd, "adaptive-partial")
+                parts.append(nd)
+            parts = [parts[i] for i in op["order"] if i < len(parts)]
+            how = op["reduce"]
+
+            def red():
+                if how == "sum":
+                    return sum(x.h for x in parts)
+                if how == "radd":
+                    return 0 + parts[0].h + parts[1].h if len(parts) == 2 else sum((x.h for x in parts[1:]), parts[0].h)
+                acc = parts[0].h.copy() if how == "iadd" else parts[0].h
+                for x in parts[1:]:
+                    if how == "iadd":
+                        acc += x.h
+                    else:
+                        acc = acc + x.h
+                return acc
+            same = all(np.array_equal(x.h.bins, parts[0].h.bins) for x in parts)
+            ok, res = attempt(red)
+            ctx.ev("red", "adaptive-" + how, len(parts), "ok" if ok else exc_tag(res))
+            ctx.abstract("adaptive_partials", how, same, ok)
+            if not ok:
+                ctx.probe("add_failed:" + type(res).__name__)
+                return
+            ctx.fault("merge_partials")
+            if not same:
+                ctx.probe("adaptive_sum_of_differently_grown_partials")
+            tot = Node(res, [e for x in parts for e in x.bag])
+            check(ctx, tot, "adaptive-" + how)
+            for x in parts:  # the operands keep their own statistics
+                check(ctx, x, "adaptive-operand-after-" + how)
+            for v, w in op["then"]:
+                ok, r2 = attempt(res.fill, v) if w is None else attempt(res.fill, v, w)
+                if not ok:
+                    ctx.probe("fill_failed:" + type(r2).__name__)
+                    return
+                tot.bag.append((v, 1.0 if w is None else float(w)))
+            if op["then"]:
+                check(ctx, tot, "adaptive-sum-then-fill")
         elif o in ("add", "iadd"):
             a, b = nodes.get(op["a"]), nodes.get(op["b"])
             if a is None or b is None or not (a.valid and b.valid):
